@@ -17,21 +17,32 @@ arithmetic fact about `Float` can be a theorem here. Consequently:
 * **`Rat`-ONLY (exact arithmetic)** — everything that needs an order or field law: the invariant `TDInv` and its
   preservation, `tdigest_sorted_*`, `tdigest_tree_*`, `quantile_in_range*`, `quantile_zero*`, `quantile_one*`,
   `quantile_none_iff_empty*`, `approxQuantiles_*`, `approxMedian_spec`, `quantile_between_endpoints`,
-  `quantile_monotone_same_cover*`, `quantile_inversion_only_where_cover_changes`, `quantile_eq_legacy`, and the
-  negation witnesses. They say what the ALGORITHM guarantees; they do not see rounding, overflow, subnormals or a
+  `quantile_monotone_same_cover*`, `quantile_inversion_only_where_cover_changes`, `quantile_eq_noclamp`,
+  `quantile_fix_invisible_for_pipelines`, `tdigest_tree_total*`, `add_weighted_total`, and the negation witnesses. They say what the ALGORITHM guarantees; they do not see rounding, overflow, subnormals or a
   NaN that is `some NaN`. All three defects repaired in `quantiles.rs` for C15 that were arithmetic
   (`ad184d4` estimate past `max` by rounding / `inf` / NaN by overflow; `994fdb6` merged mean out of order by
   rounding or overflow) were invisible to these theorems and were found by the harness's strict oracle on real
   doubles — that oracle (range with no tolerance, end points exact, NaN iff empty, sortedness of the queried
   centroids, inversions classified by the real centroids) is the only guard on the `f64` side.
 * **ANY carrier, hence also `Float`** — facts that use no law of arithmetic or order, only the control flow:
-  `nonfinite_ignored`, `nonfinite_ignored_tree` (a non-finite input never reaches the digest) and
-  `quantile_shape_any_carrier` (the value returned by `quantile` is `min`, `max`, the mean of a stored centroid,
+  `nonfinite_ignored`, `nonfinite_ignored_tree` (a non-finite input never reaches the digest),
+  `add_weighted_ignores_bad_weight` / `add_weighted_ignores_nonfinite_value` (a call of the public `add_weighted` whose
+  weight is not a positive finite number — on doubles: `0`, `-0`, negative, NaN, `±∞` — or whose value is not finite
+  changes nothing), `quantile_eq_shortcut_first_unless_single_centroid` (the order of the tests in `quantile` matters
+  only for a single centroid with `min ≠ max`) and `quantile_shape_any_carrier` (the value returned by `quantile` is `min`, `max`, the mean of a stored centroid,
   or a value `v` that passed the final clamp, i.e. `¬ v < min ∧ ¬ v > max`; on doubles the last alternative
   is "inside `[min,max]` or NaN").
 * **KMV** — over `Nat` ranks (only `<` and `==` are used). The real rank is `(hash as f64) / 2^64`; the
-  correspondence to `f64` ranks is checked by the driver on `Float`, not proved. `k = 0` (public field) and
-  `add_weighted` with weight ≠ 1 are outside the theorems (`k = 0`: correspondence only).
+  correspondence to `f64` ranks is checked by the driver on `Float`, not proved. `k = 0` (public field) is
+  outside the theorems (correspondence only). `build_from_group` is the loop of an element-wise leaf
+  (`KTree.built`, `kmv_build_from_group_is_elementwise`); the harness executes the real one.
+* **`add_weighted` IS inside the theorems** (since the `add_weighted` fix): a merge tree may contain `wleaf` leaves
+  (`TDigest::new` + `add_weighted` of (value, weight) pairs, ANY weights); `MTree.leaves` lists the values offered with
+  a positive weight, and every `quantile_*` / `approxQuantiles_*` theorem quantifies over such trees. `TDInv` asks
+  `0 < weight` (not `1 ≤`) and no longer contains "a single centroid has `min = max`" — that holds for unit weights
+  only (`UnitInv`, `quantile_fix_invisible_for_pipelines`) and was what made `quantile(1) = max` true "for the
+  unit-weight reason" before the fix (**negations** `legacy_shortcut_first_quantile_one_is_min`,
+  `legacy_zero_weight_empty_with_data`).
 * **NOT provable here (statistical accuracy, checked empirically only)**: the rank error of the t-digest and
   the error band of the KMV estimator. No theorem about `cdf`.
 
@@ -41,7 +52,8 @@ arithmetic fact about `Float` can be a theorem here. Consequently:
   sorted by mean at ALL times (`add` inserts in order since `673b7b5`, `compress` sorts and keeps the order since
   `994fdb6`); for EVERY merge tree over EVERY input and EVERY `q` (also outside `[0,1]`): the estimate lies
   between the smallest and the largest input, equals them for `q ≤ 0` / `q ≥ 1`, is NaN (`none`) iff there is no
-  input; total weight = number of inputs.
+  input; total weight = the weight the tree was fed with (`tdigest_tree_total`; = number of inputs for a pipeline,
+  `tdigest_tree_total_unit`).
   **Negation** `quantile_not_monotone`: the estimate is NOT monotone in `q` (known finding). What does hold:
   `quantile_monotone_same_cover` — on every reachable digest the estimate can only decrease between two `q` whose
   covering branch (`TDigest.cover`: which centroid the walk stops at) differs, i.e. at a centroid boundary. The
@@ -58,11 +70,14 @@ set_option linter.unusedSectionVars false
 namespace IB.Sketches
 open NumOps
 
-/-! ## t-digest: the invariant (weights ≥ 1, total = Σ weights, every mean ∈ [min,max], min = max for a
-    single centroid, min/max undefined iff no centroid) is preserved by every operation -/
+/-! ## t-digest: the invariant (weights > 0, total = Σ weights, every mean ∈ [min,max], min/max undefined iff no
+    centroid) is preserved by every operation, `add_weighted` with ANY weight included -/
 
 theorem tdigest_inv_new (δ : Rat) : TDInv (TDigest.new δ) := new_inv δ
 theorem tdigest_inv_add (d : TDigest Rat) (h : TDInv d) (x : Rat) : TDInv (d.add x) := add_inv h x
+/-- the public `add_weighted`, ANY weight (a weight that is not positive is ignored: `add_weighted_ignores_bad_weight`) -/
+theorem tdigest_inv_add_weighted (d : TDigest Rat) (h : TDInv d) (x w : Rat) : TDInv (d.addWeighted x w) :=
+  addWeighted_inv h x w
 theorem tdigest_inv_merge (d o : TDigest Rat) (h : TDInv d) (ho : TDInv o) : TDInv (d.merge o) := merge_inv h ho
 theorem tdigest_inv_compress (d : TDigest Rat) (h : TDInv d) : TDInv d.compress := compress_inv h
 
@@ -83,34 +98,70 @@ theorem tdigest_sorted_always (δ : Rat) (t : MTree Rat) :
 theorem tdigest_tree_sound (δ : Rat) (t : MTree Rat) : TDInv (t.eval δ) ∧ Summary (t.eval δ) t.leaves :=
   eval_sound δ t
 
-/-- merge in any tree: the total weight is the number of inputs -/
-theorem tdigest_tree_total (δ : Rat) (t : MTree Rat) : (t.eval δ).total = (t.leaves.length : Rat) :=
-  (eval_sound δ t).2.total_eq
+/-- merge in any tree: the total weight is the weight the tree was fed with — 1 per element-wise input, the admitted
+    (positive) weights of an `add_weighted` leaf -/
+theorem tdigest_tree_total (δ : Rat) (t : MTree Rat) : (t.eval δ).total = t.weight := eval_total δ t
+
+/-- … for the accumulators of a pipeline (`add_input` only): the number of inputs -/
+theorem tdigest_tree_total_unit (δ : Rat) (t : MTree Rat) (hu : t.unit = true) :
+    (t.eval δ).total = (t.leaves.length : Rat) := by
+  rw [eval_total]
+  induction t with
+  | leaf xs => rfl
+  | built xs => rfl
+  | wleaf ps => simp [MTree.unit] at hu
+  | node l r ihl ihr =>
+    simp only [MTree.unit, Bool.and_eq_true] at hu
+    simp only [MTree.weight, MTree.leaves, List.length_append, ihl hu.1, ihr hu.2]
+    grind
 
 /-- non-vacuity: a digest over a concrete input satisfies the invariant with a non-empty range -/
 example : TDInv (foldAdd (100 : Rat) [3, 1, 2]) ∧ Summary (foldAdd (100 : Rat) [3, 1, 2]) [3, 1, 2] :=
   foldAdd_sound 100 [3, 1, 2]
+
+/-! ## `add_weighted`: what is not an input is ignored -/
+section generic0
+variable {α : Type} [Add α] [Sub α] [Mul α] [Div α] [LE α] [LT α] [DecidableLE α] [DecidableLT α]
+  [BEq α] [NumOps α]
+
+/-- ANY carrier (so also IEEE doubles, where `weightOk w = w.is_finite() && !(w <= 0.0)` is false for `0`, `-0`, negative
+    numbers, NaN and `±∞`): `add_weighted` with such a weight leaves the digest unchanged -/
+theorem add_weighted_ignores_bad_weight (d : TDigest α) (x w : α) (h : weightOk w = false) : d.addWeighted x w = d :=
+  addWeighted_badWeight d x w h
+
+theorem add_weighted_ignores_nonfinite_value (d : TDigest α) (x w : α) (h : isFinite x = false) : d.addWeighted x w = d :=
+  addWeighted_nonfinite d x w h
+end generic0
+
+/-- over `Rat`: exactly the weights `≤ 0` are ignored … -/
+theorem add_weighted_nonpositive_ignored (d : TDigest Rat) (x w : Rat) (hw : w ≤ 0) : d.addWeighted x w = d :=
+  addWeighted_ignored d x w hw
+
+/-- … and a positive weight adds exactly that weight -/
+theorem add_weighted_total (d : TDigest Rat) (x w : Rat) (hw : 0 < w) : (d.addWeighted x w).total = d.total + w :=
+  addWeighted_total d x w hw
 
 /-! ## range, end points, NaN — for any digest that satisfies the invariant and summarises `xs` -/
 
 /-- `min ≤ q̂ ≤ max` for EVERY `q` (also `q < 0`, `q > 1`: clamped) -/
 theorem quantile_in_range_of {d : TDigest Rat} {xs : List Rat} (h : TDInv d) (hs : Summary d xs) (hne : xs ≠ [])
     (q : Rat) : ∃ mn mx v, IsMin mn xs ∧ IsMax mx xs ∧ d.quantile q = some v ∧ mn ≤ v ∧ v ≤ mx := by
-  obtain ⟨mn, mx, c, cs, hmn, hmx, hc, hmin, hmax, hle, hall, _⟩ := digest_facts h hs hne
+  obtain ⟨mn, mx, c, cs, hmn, hmx, hc, hmin, hmax, hle, hall⟩ := digest_facts h hs hne
   have := quantileCore_mem (fun x => clamp x mn mx) d.total mn mx q (c :: cs) hle (fun v => clamp_mem hle) hall
   exact ⟨mn, mx, _, hmin, hmax, quantile_eq hc hmn hmx q, this.1, this.2⟩
 
 /-- `q̂ = min` for `q ≤ 0` -/
 theorem quantile_zero_of {d : TDigest Rat} {xs : List Rat} (h : TDInv d) (hs : Summary d xs) (hne : xs ≠ [])
     (q : Rat) (hq : q ≤ 0) : ∃ mn, IsMin mn xs ∧ d.quantile q = some mn := by
-  obtain ⟨mn, mx, c, cs, hmn, hmx, hc, hmin, _, _, _, _⟩ := digest_facts h hs hne
+  obtain ⟨mn, mx, c, cs, hmn, hmx, hc, hmin, _, _, _⟩ := digest_facts h hs hne
   exact ⟨mn, hmin, by rw [quantile_eq hc hmn hmx q, quantileCore_zero _ _ _ _ _ _ hq]⟩
 
-/-- `q̂ = max` for `q ≥ 1` -/
+/-- `q̂ = max` for `q ≥ 1` — for every digest, also one fed through `add_weighted` whose single centroid covers
+    several values (before the fix false there: `legacy_shortcut_first_quantile_one_is_min`) -/
 theorem quantile_one_of {d : TDigest Rat} {xs : List Rat} (h : TDInv d) (hs : Summary d xs) (hne : xs ≠ [])
     (q : Rat) (hq : 1 ≤ q) : ∃ mx, IsMax mx xs ∧ d.quantile q = some mx := by
-  obtain ⟨mn, mx, c, cs, hmn, hmx, hc, _, hmax, _, _, hone⟩ := digest_facts h hs hne
-  exact ⟨mx, hmax, by rw [quantile_eq hc hmn hmx q, quantileCore_one _ _ _ _ _ _ hq hone]⟩
+  obtain ⟨mn, mx, c, cs, hmn, hmx, hc, _, hmax, _, _⟩ := digest_facts h hs hne
+  exact ⟨mx, hmax, by rw [quantile_eq hc hmn hmx q, quantileCore_one _ _ _ _ _ _ hq]⟩
 
 /-- NaN iff no input -/
 theorem quantile_none_iff_empty_of {d : TDigest Rat} {xs : List Rat} (h : TDInv d) (hs : Summary d xs) (q : Rat) :
@@ -146,10 +197,14 @@ theorem quantile_none_iff_empty (δ : Rat) (t : MTree Rat) (q : Rat) :
 
 theorem isEmpty_iff (δ : Rat) (t : MTree Rat) : (t.eval δ).isEmpty = true ↔ t.leaves = [] := by
   have hs := (eval_sound δ t).2
-  simp only [TDigest.isEmpty, beq_iff_eq, rat_zero, hs.total_eq]
+  simp only [TDigest.isEmpty, beq_iff_eq, rat_zero]
   constructor
-  · intro h; exact List.length_eq_zero_iff.mp (Rat.natCast_inj.mp (by rw [h]; rfl))
-  · intro h; rw [h]; rfl
+  · intro h
+    false_or_by_contra
+    rename_i hne
+    have := hs.total_pos hne
+    grind
+  · intro h; exact hs.total_zero h
 
 /-- every requested quantile is NaN when there is no (finite) input … -/
 theorem approxQuantiles_empty (δ : Rat) (t : MTree Rat) (qs : List Rat) (h : t.leaves = []) :
@@ -168,7 +223,7 @@ theorem approxQuantiles_in_range (δ : Rat) (t : MTree Rat) (qs : List Rat) (hne
     cases h : (t.eval δ).isEmpty with
     | false => rfl
     | true => exact absurd ((isEmpty_iff δ t).mp h) hne
-  obtain ⟨mn, mx, c, cs, hmn, hmx, hc, hmin, hmax, hle, hall, hone⟩ := digest_facts hi hs hne
+  obtain ⟨mn, mx, c, cs, hmn, hmx, hc, hmin, hmax, hle, hall⟩ := digest_facts hi hs hne
   refine ⟨mn, mx, hmin, hmax, by simp [approxQuantilesFinish, hemp, TDigest.quantiles], ?_⟩
   intro i hi'
   have hm := quantileCore_mem (fun x => clamp x mn mx) (t.eval δ).compress.total mn mx qs[i] (c :: cs) hle (fun v => clamp_mem hle) hall
@@ -176,7 +231,7 @@ theorem approxQuantiles_in_range (δ : Rat) (t : MTree Rat) (qs : List Rat) (hne
   · simp only [approxQuantilesFinish, hemp, Bool.false_eq_true, ↓reduceIte, TDigest.quantiles, List.getElem?_map,
       List.getElem?_eq_getElem hi', Option.map_some, quantile_eq hc hmn hmx]
   · intro hq; exact quantileCore_zero _ _ _ _ _ _ hq
-  · intro hq; exact quantileCore_one _ _ _ _ _ _ hq hone
+  · intro hq; exact quantileCore_one _ _ _ _ _ _ hq
 
 theorem approxMedian_spec (δ : Rat) (t : MTree Rat) :
     (t.leaves = [] → approxMedianFinish (t.eval δ) = none) ∧
@@ -228,24 +283,61 @@ theorem quantile_shape_any_carrier (d : TDigest α) (q : α) :
         · exact Or.inl rfl
         · split
           · exact Or.inr (Or.inl rfl)
-          · exact quantileLoop_shape mn mx _ (c :: cs) mn zero
+          · split
+            · exact Or.inl rfl
+            · exact quantileLoop_shape mn mx _ (c :: cs) mn zero
 
 end generic
 
-/-! ## the clamp of `fix: clamp …` is invisible in exact arithmetic; the pre-fix code already stayed in range there -/
+/-! ## the clamp of `fix: clamp …` is invisible in exact arithmetic; the code without it already stayed in range there -/
 
-theorem quantile_eq_legacy {d : TDigest Rat} (h : TDInv d) (q : Rat) : d.quantile q = Legacy.quantile d q := by
+theorem quantile_eq_noclamp {d : TDigest Rat} (h : TDInv d) (q : Rat) : d.quantile q = d.quantileNoClamp q := by
   by_cases hc : d.centroids = []
-  · simp [TDigest.quantile, Legacy.quantile, hc]
-  · obtain ⟨mn, mx, hmn, hmx, hle, hall, _⟩ := h.range hc
+  · simp [TDigest.quantile, TDigest.quantileNoClamp, hc]
+  · obtain ⟨mn, mx, hmn, hmx, hle, hall⟩ := h.range hc
     cases hcs : d.centroids with
     | nil => exact absurd hcs hc
     | cons c cs =>
-      rw [quantile_eq hcs hmn hmx, legacy_quantile_eq hcs hmn hmx]
+      rw [quantile_eq hcs hmn hmx, quantileNoClamp_eq hcs hmn hmx]
       congr 1
-      apply quantileCore_eq_legacy _ _ _ _ _ hle (by rw [← hcs]; exact hall)
+      apply quantileCore_eq_noclamp _ _ _ _ _ hle (by rw [← hcs]; exact hall)
       have := wsum_pos_of_ok hc hall
-      rw [h.total_eq]; grind
+      rw [h.total_eq]; exact this
+
+/-! ## the order of the tests in `quantile` (end points before the single-centroid short cut) matters only for a
+    single centroid with `min ≠ max` — ANY carrier, no arithmetic law used -/
+section generic1
+variable {α : Type} [Add α] [Sub α] [Mul α] [Div α] [LE α] [LT α] [DecidableLE α] [DecidableLT α]
+  [BEq α] [NumOps α]
+
+theorem quantile_eq_shortcut_first_unless_single_centroid (d : TDigest α) (q : α)
+    (h : d.centroids.length ≠ 1 ∨ d.min = d.max) : d.quantile q = Legacy.quantileShortcutFirst d q := by
+  unfold TDigest.quantile Legacy.quantileShortcutFirst
+  cases hc : d.centroids with
+  | nil => rfl
+  | cons c cs =>
+    cases hmn : d.min with
+    | none => rfl
+    | some mn =>
+      cases hmx : d.max with
+      | none => rfl
+      | some mx =>
+        simp only [quantileCoreWith, Legacy.quantileCoreWith]
+        congr 1
+        by_cases hL : (c :: cs).length = 1
+        · have e : mn = mx := by
+            rcases h with h | h
+            · rw [hc] at h; exact absurd hL h
+            · rw [hmn, hmx] at h; exact Option.some.inj h
+          subst e
+          have hb : ((c :: cs).length == 1) = true := by rw [beq_iff_eq]; exact hL
+          simp only [hb, Bool.or_true, ↓reduceIte, ite_self]
+        · have hb : ((c :: cs).length == 1) = false := by
+            cases hx : ((c :: cs).length == 1) with
+            | false => rfl
+            | true => exact absurd (beq_iff_eq.mp hx) hL
+          simp only [hb, Bool.or_false, Bool.false_eq_true, ↓reduceIte, decide_eq_true_eq]
+end generic1
 
 /-! ## NEGATION: the estimate is not monotone in `q` (known finding `C15-quantile-not-monotone`)
 
@@ -353,53 +445,39 @@ digest the engine can build and for the digest `finish` queries. -/
 theorem quantile_monotone_same_cover_of {d : TDigest Rat} (h : TDInv d) (hs : SortedC d.centroids)
     (hne : d.centroids ≠ []) (q₁ q₂ : Rat) (hq : q₁ ≤ q₂) (hc : d.cover q₁ = d.cover q₂) :
     ∃ v₁ v₂, d.quantile q₁ = some v₁ ∧ d.quantile q₂ = some v₂ ∧ v₁ ≤ v₂ := by
-  obtain ⟨mn, mx, hmn, hmx, hle, hall, hone⟩ := h.range hne
+  obtain ⟨mn, mx, hmn, hmx, hle, hall⟩ := h.range hne
   have htot : 0 ≤ d.total := by
     rw [h.total_eq]; have := wsum_pos_of_ok hne hall; grind
   cases hcs : d.centroids with
   | nil => exact absurd hcs hne
   | cons c cs =>
     refine ⟨_, _, quantile_eq hcs hmn hmx q₁, quantile_eq hcs hmn hmx q₂, ?_⟩
+    rw [hcs] at hall hs
+    have r1 := quantileCore_mem (fun x => clamp x mn mx) d.total mn mx q₁ (c :: cs) hle (fun v => clamp_mem hle) hall
+    have r2 := quantileCore_mem (fun x => clamp x mn mx) d.total mn mx q₂ (c :: cs) hle (fun v => clamp_mem hle) hall
     have hq' : clamp q₁ 0 1 ≤ clamp q₂ 0 1 := clamp_mono (by grind) hq
-    unfold TDigest.cover at hc
-    simp only [hcs, rat_zero, rat_one] at hc
-    unfold quantileCoreWith
-    simp only [rat_zero, rat_one]
-    generalize clamp q₁ 0 1 = a at hc hq' ⊢
-    generalize clamp q₂ 0 1 = b at hc hq' ⊢
-    by_cases A1 : (decide (abs (a - 0) ≤ eps) || (c :: cs).length == 1) = true
-    · by_cases A2 : (decide (abs (b - 0) ≤ eps) || (c :: cs).length == 1) = true
-      · simp only [A1, A2, ↓reduceIte]; exact Rat.le_refl
-      · exfalso
-        simp only [A1, A2, ↓reduceIte, Bool.false_eq_true] at hc
-        split at hc
-        · cases hc
-        · exact coverLoop_ne_min _ _ _ _ hc.symm
-    · by_cases A2 : (decide (abs (b - 0) ≤ eps) || (c :: cs).length == 1) = true
-      · exfalso
-        simp only [A1, A2, ↓reduceIte, Bool.false_eq_true] at hc
-        split at hc
-        · cases hc
-        · exact coverLoop_ne_min _ _ _ _ hc
-      · simp only [A1, A2, ↓reduceIte, Bool.false_eq_true] at hc ⊢
-        by_cases B1 : abs (a - 1) ≤ eps
-        · by_cases B2 : abs (b - 1) ≤ eps
-          · simp only [B1, B2, ↓reduceIte]; exact Rat.le_refl
-          · exfalso
-            simp only [B1, B2, ↓reduceIte] at hc
-            exact coverLoop_ne_max _ _ _ _ hc.symm
-        · by_cases B2 : abs (b - 1) ≤ eps
-          · exfalso
-            simp only [B1, B2, ↓reduceIte] at hc
-            exact coverLoop_ne_max _ _ _ _ hc
-          · simp only [B1, B2, ↓reduceIte] at hc ⊢
-            have hmul : a * d.total ≤ b * d.total := by
-              have := Rat.mul_nonneg (a := b - a) (b := d.total) (by grind) htot
-              grind
-            rw [hcs] at hall hs
-            have hs' := List.pairwise_cons.mp hs
-            exact quantileLoop_mono_same_cover mn mx hle _ _ hmul (c :: cs) mn 0 0 hall hs
-              (fun x hx => (hall x hx).2.1) hle hc
+    have ha := clamp01_mem q₁
+    have hb := clamp01_mem q₂
+    -- `q₁` answered by the `min` test: `min` is below every estimate
+    by_cases A1 : abs (clamp q₁ (0:Rat) 1 - 0) ≤ (eps : Rat)
+    · rw [quantileCore_branch_min _ _ _ _ _ _ A1]; exact r2.1
+    by_cases A2 : abs (clamp q₂ (0:Rat) 1 - 0) ≤ (eps : Rat)
+    · exfalso; simp only [rat_abs, rat_eps] at A1 A2; grind
+    -- `q₂` answered by the `max` test: `max` is above every estimate
+    by_cases B2 : abs (clamp q₂ (0:Rat) 1 - 1) ≤ (eps : Rat)
+    · rw [quantileCore_branch_max _ _ _ _ _ _ A2 B2]; exact r1.2
+    by_cases B1 : abs (clamp q₁ (0:Rat) 1 - 1) ≤ (eps : Rat)
+    · exfalso; simp only [rat_abs, rat_eps] at B1 B2; grind
+    by_cases L : (c :: cs).length = 1
+    · rw [quantileCore_branch_single _ _ _ _ _ _ A1 B1 L, quantileCore_branch_single _ _ _ _ _ _ A2 B2 L]
+      exact Rat.le_refl
+    rw [quantileCore_branch_loop _ _ _ _ _ _ A1 B1 L, quantileCore_branch_loop _ _ _ _ _ _ A2 B2 L]
+    rw [cover_branch_loop d c cs hcs q₁ A1 B1 L, cover_branch_loop d c cs hcs q₂ A2 B2 L] at hc
+    have hmul : clamp q₁ 0 1 * d.total ≤ clamp q₂ 0 1 * d.total := by
+      have := Rat.mul_nonneg (a := clamp q₂ 0 1 - clamp q₁ 0 1) (b := d.total) (by grind) htot
+      grind
+    exact quantileLoop_mono_same_cover mn mx hle _ _ hmul (c :: cs) mn 0 0 hall hs
+      (fun x hx => (hall x hx).2.1) hle hc
 
 /-- `TDigest::quantile(s)` on the merged accumulator of ANY merge tree: `q₁ ≤ q₂` answered by the same branch give
     `q̂(q₁) ≤ q̂(q₂)` -/
@@ -437,23 +515,19 @@ theorem quantile_inversion_only_where_cover_changes (δ : Rat) (t : MTree Rat) (
     satisfy the hypothesis), while `q = 0.25` is answered by the first: the inversion of `quantile_not_monotone`
     between `0.25` and `0.26` sits at a change of cover -/
 theorem witness_cover_second (q : Rat) (h1 : 1 / 4 < q) (h2 : q ≤ 1 / 2) : witnessDigest.cover q = .at 1 := by
-  unfold TDigest.cover
-  have : clamp q 0 1 = q := clamp_id (by grind) (by grind)
-  simp only [witnessDigest, rat_zero, rat_one, this, rat_abs, rat_eps]
-  rw [if_neg, if_neg]
-  · unfold coverLoop; simp only; rw [if_neg (by grind)]
-    unfold coverLoop; simp only; rw [if_pos (by grind)]
-  · grind
-  · simp only [Bool.or_eq_true, decide_eq_true_eq, beq_iff_eq]; simp; grind
+  have hq : clamp q 0 1 = q := clamp_id (by grind) (by grind)
+  rw [cover_branch_loop witnessDigest ⟨1, 1⟩ [⟨2, 1⟩, ⟨3, 1⟩, ⟨4, 1⟩] rfl q
+    (by rw [hq]; simp only [rat_abs, rat_eps]; grind) (by rw [hq]; simp only [rat_abs, rat_eps]; grind) (by simp), hq]
+  simp only [witnessDigest]
+  unfold coverLoop; simp only; rw [if_neg (by grind)]
+  unfold coverLoop; simp only; rw [if_pos (by grind)]
 
 theorem witness_cover_first : witnessDigest.cover (1 / 4) = .at 0 := by
-  unfold TDigest.cover
-  have : clamp (1 / 4 : Rat) 0 1 = 1 / 4 := clamp_id (by grind) (by grind)
-  simp only [witnessDigest, rat_zero, rat_one, this, rat_abs, rat_eps]
-  rw [if_neg, if_neg]
-  · unfold coverLoop; simp only; rw [if_pos (by grind)]
-  · grind
-  · simp only [Bool.or_eq_true, decide_eq_true_eq, beq_iff_eq]; simp; grind
+  have hq : clamp (1 / 4 : Rat) 0 1 = 1 / 4 := clamp_id (by grind) (by grind)
+  rw [cover_branch_loop witnessDigest ⟨1, 1⟩ [⟨2, 1⟩, ⟨3, 1⟩, ⟨4, 1⟩] rfl (1 / 4)
+    (by rw [hq]; simp only [rat_abs, rat_eps]; grind) (by rw [hq]; simp only [rat_abs, rat_eps]; grind) (by simp), hq]
+  simp only [witnessDigest]
+  unfold coverLoop; simp only; rw [if_pos (by grind)]
 
 example : witnessDigest.cover (26 / 100) = witnessDigest.cover (49 / 100) ∧ witnessDigest.cover (1 / 4) ≠ witnessDigest.cover (26 / 100) := by
   rw [witness_cover_second _ (by grind) (by grind), witness_cover_second _ (by grind) (by grind), witness_cover_first]
@@ -480,27 +554,25 @@ theorem legacyWitness_eq : Legacy.foldAdd (100 : Rat) [3, 1, 2] = legacyWitness 
 
 theorem legacyWitness_q50 : Legacy.quantile legacyWitness (1 / 2) = some (5 / 2) := by
   rw [legacy_quantile_eq (c := ⟨3,1⟩) (cs := [⟨1,1⟩,⟨2,1⟩]) (mn := 1) (mx := 3) rfl rfl rfl]
-  rw [quantileCore_mid _ _ _ _ _ _ (by grind) (by grind) (by simp)]
+  rw [legacy_quantileCore_mid _ _ _ _ _ _ (by grind) (by grind) (by simp)]
   rw [quantileLoop_skip _ _ _ _ _ _ _ (by simp [legacyWitness]; grind)]
   rw [quantileLoop_hit _ _ _ _ _ _ _ _ (by simp [legacyWitness]; grind) (by simp; grind)]
   simp only [legacyWitness, id]; congr 1; grind
 
 theorem legacyWitness_q60 : Legacy.quantile legacyWitness (3 / 5) = some (11 / 5) := by
   rw [legacy_quantile_eq (c := ⟨3,1⟩) (cs := [⟨1,1⟩,⟨2,1⟩]) (mn := 1) (mx := 3) rfl rfl rfl]
-  rw [quantileCore_mid _ _ _ _ _ _ (by grind) (by grind) (by simp)]
+  rw [legacy_quantileCore_mid _ _ _ _ _ _ (by grind) (by grind) (by simp)]
   rw [quantileLoop_skip _ _ _ _ _ _ _ (by simp [legacyWitness]; grind)]
   rw [quantileLoop_hit _ _ _ _ _ _ _ _ (by simp [legacyWitness]; grind) (by simp; grind)]
   simp only [legacyWitness, id]; congr 1; grind
 
 theorem legacyWitness_cover (q : Rat) (h1 : 1 / 3 < q) (h2 : q ≤ 2 / 3) : legacyWitness.cover q = .at 1 := by
-  unfold TDigest.cover
-  have : clamp q 0 1 = q := clamp_id (by grind) (by grind)
-  simp only [legacyWitness, rat_zero, rat_one, this, rat_abs, rat_eps]
-  rw [if_neg, if_neg]
-  · unfold coverLoop; simp only; rw [if_neg (by grind)]
-    unfold coverLoop; simp only; rw [if_pos (by grind)]
-  · grind
-  · simp only [Bool.or_eq_true, decide_eq_true_eq, beq_iff_eq]; simp; grind
+  have hq : clamp q 0 1 = q := clamp_id (by grind) (by grind)
+  rw [cover_branch_loop legacyWitness ⟨3, 1⟩ [⟨1, 1⟩, ⟨2, 1⟩] rfl q
+    (by rw [hq]; simp only [rat_abs, rat_eps]; grind) (by rw [hq]; simp only [rat_abs, rat_eps]; grind) (by simp), hq]
+  simp only [legacyWitness]
+  unfold coverLoop; simp only; rw [if_neg (by grind)]
+  unfold coverLoop; simp only; rw [if_pos (by grind)]
 
 theorem legacy_append_quantile_decreases_inside_one_centroid :
     ∃ (q₁ q₂ v₁ v₂ : Rat), q₁ ≤ q₂ ∧
@@ -515,6 +587,113 @@ theorem legacy_append_quantile_decreases_inside_one_centroid :
 /-- the current `add` on the same inputs keeps the centroids in order: `[1, 2, 3]` -/
 example : (foldAdd (100 : Rat) [3, 1, 2]).centroids.Pairwise (fun a b => a.mean ≤ b.mean) :=
   tdigest_sorted_always 100 (.leaf [3, 1, 2])
+
+/-! ## NEGATION (code before the `add_weighted` fix, `Legacy.addWeighted` / `Legacy.quantileShortcutFirst`): through
+    the public `TDigest::add_weighted` two clauses of the property were false.
+    Reproduced on the real crate (corpus of `harness/src/c15.rs`): `add_weighted(1.0, 0.5); add_weighted(2.0, 0.5)`
+    merged into `TDigest::new(100)` is the single centroid `(1.5, 1.0)` with min 1, max 2, and `quantile(1.0)` answered 1;
+    `add_weighted(3.0, 0.0)` gave `is_empty() == true` with `quantile(0.5) == 3`. -/
+
+/-- two half-weight points, merged into an empty digest: ONE centroid (mean 3/2, weight 1), min 1, max 2 -/
+def weightedWitness : TDigest Rat := ⟨100, [⟨3 / 2, 1⟩], 1, some 1, some 2⟩
+def weightedWitnessTree : MTree Rat := .node (.leaf []) (.wleaf [(1, 1 / 2), (2, 1 / 2)])
+
+theorem weightedLeaf_eq : foldAddW (100 : Rat) [(1, 1 / 2), (2, 1 / 2)] = ⟨100, [⟨1, 1 / 2⟩, ⟨2, 1 / 2⟩], 1, some 1, some 2⟩ := by
+  have e1 : TDigest.addWeighted (⟨100, [], 0, none, none⟩ : TDigest Rat) 1 (1 / 2) = ⟨100, [⟨1, 1 / 2⟩], 1 / 2, some 1, some 1⟩ := by
+    rw [addWeighted_explicit 100 _ _ _ _ _ _ (by grind) (by simp; grind)]
+    simp only [ominV, omaxV]; congr 1 <;> grind
+  have e2 : TDigest.addWeighted (⟨100, [⟨1, 1 / 2⟩], 1 / 2, some 1, some 1⟩ : TDigest Rat) 2 (1 / 2) = ⟨100, [⟨1, 1 / 2⟩, ⟨2, 1 / 2⟩], 1, some 1, some 2⟩ := by
+    rw [addWeighted_explicit 100 _ _ _ _ _ _ (by grind) (by simp; grind)]
+    simp only [ominV, omaxV, rat_fmin, rat_fmax]; congr 1 <;> grind
+  simp only [foldAddW, List.foldl, TDigest.new, rat_zero, e1, e2]
+
+theorem weightedWitness_eq : weightedWitnessTree.eval 100 = weightedWitness := by
+  simp only [weightedWitnessTree, MTree.eval, foldAdd, List.foldl, weightedLeaf_eq, TDigest.new, rat_zero]
+  rw [merge_eq]
+  have hz : ((⟨100, [⟨1, 1 / 2⟩, ⟨2, 1 / 2⟩], 1, some 1, some 2⟩ : TDigest Rat).total == 0) = false := by
+    simp
+  rw [hz]
+  simp only [Bool.false_eq_true, ↓reduceIte, mergePre, ominO, omaxO, List.nil_append]
+  unfold TDigest.compress
+  have hsort : ([⟨1, 1 / 2⟩, ⟨2, 1 / 2⟩] : List (Centroid Rat)).mergeSort meanLe = [⟨1, 1 / 2⟩, ⟨2, 1 / 2⟩] := by
+    apply List.mergeSort_of_pairwise
+    simp [meanLe]; grind
+  simp only [hsort]
+  have hfit : fits (100:Rat) (0 + 1) zero ⟨1, 1/2⟩ ⟨2, 1/2⟩ = true := by
+    simp only [fits, kSize, clamp, rat_fmin, rat_fmax, rat_zero, rat_one, rat_two, decide_eq_true_eq]
+    grind
+  unfold compressLoopWith
+  simp only [hfit, ↓reduceIte]
+  unfold compressLoopWith
+  simp only [weightedWitness, mergeCentroid, boundBetween, rat_mulAdd, rat_fmin, rat_fmax]
+  congr 1
+  · congr 1; congr 1 <;> grind
+  · grind
+
+theorem weightedWitness_leaves : weightedWitnessTree.leaves = [1, 2] := by
+  have h : weightOk (1 / 2 : Rat) = true := rat_weightOk_pos (by grind)
+  simp [weightedWitnessTree, MTree.leaves, List.filter, h]
+
+/-- current code: `q = 1` answers `max = 2` (instance of `quantile_one`) -/
+theorem weightedWitness_q1 : (weightedWitnessTree.eval 100).quantile 1 = some 2 := by
+  obtain ⟨mx, hmax, h⟩ := quantile_one 100 weightedWitnessTree (by rw [weightedWitness_leaves]; simp)
+  rw [weightedWitness_leaves] at hmax
+  have : mx = 2 := by
+    have h1 := hmax.1; have h2 := hmax.2 2 (by simp)
+    simp at h1; grind
+  rw [h, this]
+
+/-- code before the fix: the single-centroid short cut answers `min = 1` for `q = 1` -/
+theorem weightedWitness_legacy_q1 : Legacy.quantileShortcutFirst (weightedWitnessTree.eval 100) 1 = some 1 := by
+  rw [weightedWitness_eq]
+  rw [legacy_quantileShortcutFirst_eq (c := ⟨3 / 2, 1⟩) (cs := []) (mn := 1) (mx := 2) rfl rfl rfl]
+  simp [Legacy.quantileCoreWith]
+
+/-- "equal them exactly at q = 1" was FALSE for the code before the fix, through the public `add_weighted` -/
+theorem legacy_shortcut_first_quantile_one_is_min :
+    ∃ (t : MTree Rat) (mx v : Rat), IsMax mx t.leaves ∧ Legacy.quantileShortcutFirst (t.eval 100) 1 = some v ∧ v < mx :=
+  ⟨weightedWitnessTree, 2, 1, by rw [weightedWitness_leaves]; simp [IsMax]; grind, weightedWitness_legacy_q1, by grind⟩
+
+theorem legacy_zeroWeight_eq : Legacy.addWeighted (TDigest.new (100 : Rat)) 3 0 = ⟨100, [⟨3, 0⟩], 0, some 3, some 3⟩ := by
+  unfold Legacy.addWeighted
+  simp only [rat_isFinite, Bool.not_true, Bool.false_eq_true, ↓reduceIte, TDigest.new, rat_zero, rat_ofNat, rat_two,
+    insertByMean_length, ominV, omaxV]
+  rw [if_neg (by simp; grind)]
+  congr 1 <;> grind
+
+/-- code before the fix: a zero weight was stored — the digest then claims to be empty (`is_empty()`, so `finish`
+    answers NaN) while `quantile` answers the value: "NaN only for an empty input" fails either way one reads it -/
+theorem legacy_zero_weight_empty_with_data :
+    (Legacy.addWeighted (TDigest.new (100 : Rat)) 3 0).isEmpty = true ∧
+    approxMedianFinish (Legacy.addWeighted (TDigest.new (100 : Rat)) 3 0) = none ∧
+    Legacy.quantileShortcutFirst (Legacy.addWeighted (TDigest.new (100 : Rat)) 3 0) (1 / 2) = some 3 := by
+  rw [legacy_zeroWeight_eq]
+  refine ⟨by simp [TDigest.isEmpty], by simp [approxMedianFinish, TDigest.isEmpty], ?_⟩
+  rw [legacy_quantileShortcutFirst_eq (c := ⟨3, 0⟩) (cs := []) (mn := 3) (mx := 3) rfl rfl rfl]
+  simp [Legacy.quantileCoreWith]
+
+/-- current code: the call is ignored, the digest stays empty in every respect -/
+example : (TDigest.new (100 : Rat)).addWeighted 3 0 = TDigest.new 100 :=
+  add_weighted_nonpositive_ignored _ 3 0 Rat.le_refl
+
+
+/-- for everything a PIPELINE builds (`add_input` only, weight 1) the fix changes nothing: a single centroid there has
+    seen a single value (`min = max`), so both orders of the tests answer the same — on the merged accumulator and on
+    the compressed copy `finish` queries -/
+theorem quantile_fix_invisible_for_pipelines (δ : Rat) (t : MTree Rat) (hu : t.unit = true) (q : Rat) :
+    (t.eval δ).quantile q = Legacy.quantileShortcutFirst (t.eval δ) q ∧
+    (t.eval δ).compress.quantile q = Legacy.quantileShortcutFirst (t.eval δ).compress q := by
+  have h1 := eval_unit δ t hu
+  have h2 := compress_unit h1
+  constructor
+  · apply quantile_eq_shortcut_first_unless_single_centroid
+    by_cases hl : (t.eval δ).centroids.length = 1
+    · exact Or.inr (h1.one hl)
+    · exact Or.inl hl
+  · apply quantile_eq_shortcut_first_unless_single_centroid
+    by_cases hl : (t.eval δ).compress.centroids.length = 1
+    · exact Or.inr (h2.one hl)
+    · exact Or.inl hl
 
 /-! ## KMV -/
 
@@ -587,6 +766,10 @@ theorem kmv_estimate_at_least_k (k : Nat) (hk : 0 < k) (t : KTree Nat) (hfull : 
     simp only [KMV.finish, hfull, h.hk, hm]
     have : ¬ k = 0 := by omega
     simp [this]
+
+/-- `build_from_group` runs the loop of an element-wise leaf (`create` + `try_insert` of every value) -/
+theorem kmv_build_from_group_is_elementwise (k : Nat) (xs : List Nat) :
+    (KTree.built xs).eval k = (KTree.leaf xs).eval k := rfl
 
 /-- non-vacuity of `kmv_exact_below_k`: three distinct values, one repeated, two partitions, `k = 4` -/
 example : ∃ (hash : Nat → Nat) (t : KTree Nat) (D : List Nat), D.Nodup ∧ (∀ v, v ∈ D ↔ v ∈ t.leaves) ∧
